@@ -492,6 +492,8 @@ func TestVerifRunner(t *testing.T) {
 			_ = l
 		}
 		vCurrent.Store(c.ID)
+		// the case in flight, for the driver: a fatal error in the runner kills this process
+		os.WriteFile(out+".cur", []byte(c.ID), 0644)
 		var tr *vTrace
 		if c.Mode == "stress" {
 			for rep := 1; rep < c.Reps; rep++ {
